@@ -58,7 +58,8 @@ _source = st.one_of(
     st.text(alphabet='abc xyz()=+,.:"\'_01~^', min_size=1, max_size=16),
 )
 _marker = st.sampled_from(['^^^^', '~~~^^^', '~~^~~', '^', '~~~~~~~^^^^^^', '^^^^^^^^^^^'])
-_tname = st.sampled_from(['ValueError', 'KeyError', 'ZeroDivisionError', 'mod.CustomError', 'a.b.c.Err', 'Exception', 'pkg.mod.outer.<locals>.Local',
+_tname = st.sampled_from(['ValueError', 'KeyError', 'ZeroDivisionError', 'mod.CustomError', 'a.b.c.Err', 'Exception', 'Exception', 'ExceptionGroupError',
+                          'pkg.mod.outer.<locals>.Local',
                           'json.decoder.JSONDecodeError', 'E'])
 _msgline = st.one_of(
     st.sampled_from(['boom', 'division by zero', "'k'", 'a: b', 'x: y: z', 'File "x", line 3, in y', '  indented', 'caf\xe9 \u4e2d', '"quoted"',
@@ -66,7 +67,9 @@ _msgline = st.one_of(
                      # message lines that look like the interpreter's own banners
                      'The above exception was the direct cause of the following exception:',
                      'During handling of the above exception, another exception occurred:',
-                     '  [Previous line repeated 3 more times]']),
+                     '  [Previous line repeated 3 more times]',
+                     # last lines that resemble the interpreter's "Exception ... ignored" notices
+                     'Exception: SIGHUP ignored: no handler', 'Exceptional input ignored', 'Exception ignored in: <function f>', 'ignored']),
     st.text(alphabet='abc :"\'(),.x1\xe9', min_size=1, max_size=12),
 )
 
